@@ -26,6 +26,13 @@ pub struct NodeState {
 	pub fake_kernels: HashMap<Commitment, u64>,
 	/// reject posts
 	pub refuse_post: bool,
+	/// number of get_outputs_by_pmmr_index calls since the counter was last reset (C16)
+	pub pmmr_calls: u64,
+	/// when non-zero: get_outputs_by_pmmr_index fails once `pmmr_calls` exceeds this (turns a paging loop that
+	/// never terminates into an error instead of a hang)
+	pub pmmr_limit: u64,
+	/// (start_index, how many consecutive get_outputs_by_pmmr_index calls asked for it with no other node call between)
+	pub pmmr_same_start: (u64, u64),
 	/// block header version reported by `get_version_info` (None = node gives no version info)
 	pub version_bhv: Option<u16>,
 }
@@ -74,6 +81,9 @@ impl DirectNode {
 	fn gate(&self, what: &str) -> Result<(), Error> {
 		let mut s = self.inner.state.lock().unwrap();
 		s.calls += 1;
+		if what != "get_outputs_by_pmmr_index" {
+			s.pmmr_same_start = (0, 0);
+		}
 		if let Some(n) = s.down_after {
 			if n == 0 {
 				s.down = true;
@@ -205,6 +215,19 @@ impl NodeClient for DirectNode {
 		max_outputs: u64,
 	) -> Result<(u64, u64, Vec<(Commitment, RangeProof, bool, u64, u64)>), Error> {
 		self.gate("get_outputs_by_pmmr_index")?;
+		let over = self.with(|s| {
+			s.pmmr_calls += 1;
+			// always on: the same page requested 16 times in a row within one paging loop = no progress
+			if s.pmmr_same_start.0 == start_index {
+				s.pmmr_same_start.1 += 1;
+			} else {
+				s.pmmr_same_start = (start_index, 1);
+			}
+			(s.pmmr_limit != 0 && s.pmmr_calls > s.pmmr_limit) || s.pmmr_same_start.1 > 16
+		});
+		if over {
+			return Err(Error::ClientCallback("harness: paging call budget exceeded (paging loop makes no progress)".into()));
+		}
 		let page = self.with(|s| s.page).max(1);
 		let max = std::cmp::min(max_outputs, page);
 		let c = match self.chain() {
